@@ -343,9 +343,19 @@ pub fn scenario(g: &mut G, ctx: &RunCtx) -> RunReport {
         };
         format!("{}://{}{}:{}", if p.proxy_https { "https" } else { "http" }, auth, p.proxy_host, if p.proxy_https { 3129 } else { 3128 })
     };
+    let ua_variant = p.status % 2 == 0;
     let out = sim.run(|| {
         let ps = attohttpc::ProxySettings::builder().https_proxy(url::Url::parse(&proxy_url).unwrap()).build();
-        let r = attohttpc::post(&url)
+        // (no draw) every second plan goes through a session that has its own User-Agent while the request
+        // sets another: whatever the client tells the proxy about itself is the request's, not the session's
+        let rb = if ua_variant {
+            let mut session = attohttpc::Session::new();
+            session.header("User-Agent", "session-agent/1.0");
+            session.post(&url).header("User-Agent", "request-agent/2.0")
+        } else {
+            attohttpc::post(&url)
+        };
+        let r = rb
             .proxy_settings(ps)
             .add_root_certificate(ca_cert())
             .header("X-Secret-Marker", MARK_H)
@@ -418,6 +428,14 @@ pub fn scenario(g: &mut G, ctx: &RunCtx) -> RunReport {
                 // absent, or the encoding of empty credentials
                 if !(pa.is_empty() || (pa.len() == 1 && pa[0] == b"Basic Og==")) {
                     return violation("proxy-authorization", format!("Proxy-Authorization {:?} although the proxy URL has no credentials", pa.iter().map(|v| short(v)).collect::<Vec<_>>()));
+                }
+            }
+        }
+        // a client that introduces itself to the proxy does so as the request under way, not as its session
+        if ua_variant {
+            if let Some(ua) = r.header_str("user-agent") {
+                if ua != "request-agent/2.0" {
+                    return violation("connect-head-speaks-for-the-session", format!("the CONNECT head carries User-Agent {:?}; the request set \"request-agent/2.0\" (its session \"session-agent/1.0\")", ua));
                 }
             }
         }
